@@ -154,9 +154,6 @@ structure TwoWatch (cnf : Cnf) (wl : WL) : Prop where
   /-- nothing else is watched -/
   only : ∀ i w, Watches wl i w → i < cnf.length ∧ 2 ≤ (cnf.getD i []).length
 
-theorem lit_ext {w l : Lit} (hp : w.pol = l.pol) (hv : w.var = l.var) : w = l := by
-  cases w; cases l; simp_all
-
 theorem nodup_getElem_inj {l : List Nat} (h : l.Nodup) {i j : Nat} (hi : i < l.length)
     (hj : j < l.length) (e : l[i] = l[j]) : i = j := by
   rw [List.nodup_iff_pairwise_ne, List.pairwise_iff_getElem] at h
@@ -553,15 +550,6 @@ theorem mem_impliedUnits {cnf : Cnf} {u : Lit} : u ∈ impliedUnits cnf ↔ [u] 
     | a :: b :: t => unfold impliedUnits; simp [ih]
 
 /-! ## the fixpoint property from the invariants -/
-
-instance : LawfulBEq Lit where
-  eq_of_beq {a b} h := by
-    cases a; cases b
-    simp only [BEq.beq] at h
-    simpa [instBEqLit.beq] using h
-  rfl {a} := by
-    cases a
-    simp [BEq.beq, instBEqLit.beq]
 
 /-- unit clauses have their literal true -/
 def UnitsTrue (cnf : Cnf) (m : PModel) : Prop := ∀ u, [u] ∈ cnf → litTrue m u = true
